@@ -27,7 +27,7 @@ func (en *env) describe(v goja.Value) string {
 	if o, ok := v.(*goja.Object); ok {
 		for i, k := range en.vals {
 			if k != nil && k == v {
-				return fmt.Sprintf("values[%d]", i)
+				return valNames[i]
 			}
 		}
 		s := ""
@@ -39,9 +39,13 @@ func (en *env) describe(v goja.Value) string {
 	return goja.VerifRepr(v) + ":" + v.String()
 }
 
+var valNames = [nVals]string{"the number 42", "the string \"boom\"", "undefined", "null", "the thrown plain object", "the thrown {value:null} object", "the thrown {value:1} object",
+	"the thrown {get value(){}} object", "", "the thrown GoError(sentinel) object", "the thrown GoError(%w) object", "the thrown GoError(join) object",
+	"the object returned by the innermost native", "the object returned by the swallowing catch", "the object inside the pre-made *Exception", "the object thrown by the iterator's return()"}
+
 func descV(t VTerm) string {
 	if t.Idx >= 0 {
-		return fmt.Sprintf("values[%d]", t.Idx)
+		return valNames[t.Idx]
 	}
 	if t.Err != nil {
 		return fmt.Sprintf("new %s#%d(%s)", t.Class, t.Fresh, descE(t.Err))
@@ -97,7 +101,7 @@ func (m *matcher) matchValue(actual goja.Value, t VTerm) string {
 	}
 	for i, k := range m.en.vals {
 		if k != nil && k == actual {
-			return fmt.Sprintf("got values[%d], want %s", i, descV(t))
+			return fmt.Sprintf("got %s, want %s", valNames[i], descV(t))
 		}
 	}
 	m.bound[t.Fresh] = actual
@@ -328,10 +332,10 @@ func runOn(en *env, c *Chain) (fails []failure, out outcome, reuse *env) {
 		}()
 		actual := en.log
 		if exp.Final.Kind == fForeign {
-			// whether finally blocks run while a foreign Go panic unwinds is not stated by the property
+			// whether finally blocks / iterator return() run while a foreign Go panic unwinds is not stated by the property
 			actual = nil
 			for _, e := range en.log {
-				if e.Tag != "f" {
+				if e.Tag != "f" && e.Tag != "r" {
 					actual = append(actual, e)
 				}
 			}
